@@ -145,8 +145,12 @@ class SimAbort(Exception):
     pass
 
 
-def record(factory, stimulus, reset_cycles=3, passgroup=None, tvres=None):
+def record(factory, stimulus, reset_cycles=3, passgroup=None, tvres=None, busy_reset=0):
     """Simulate `factory()` under DefaultPassGroup.
+
+    busy_reset = n > 0: instead of `reset_cycles` idle cycles (reset = 1, every other input 0) the first n
+    stimulus cycles (dicts) are applied with reset forced to 1 - the design is reset under arbitrary inputs,
+    and no cycle of the run is spent on all-zero inputs.
 
     stimulus: list of cycles; a cycle is either a dict {port path: int} (ports not mentioned keep
     their value) or a callable f(top) that sets inputs itself (repo TV_IN functions).
@@ -198,10 +202,15 @@ def record(factory, stimulus, reset_cycles=3, passgroup=None, tvres=None):
         return f
 
     ok = True
-    for _ in range(reset_cycles):
-        ok = ok and cycle(set_reset(1))
+    if busy_reset:
+        stimulus = [dict(list(c.items()) + [(("reset",), 1)]) if i < busy_reset and isinstance(c, dict) else c
+                    for i, c in enumerate(stimulus)]
+    else:
+        for _ in range(reset_cycles):
+            ok = ok and cycle(set_reset(1))
     if ok:
-        set_reset(0)()
+        if not busy_reset:
+            set_reset(0)()
         for c in stimulus:
             checker = None
             if isinstance(c, tuple):
